@@ -46,6 +46,10 @@ CHECKS['C15'] = dict(tech='model-based Hypothesis recordings (Sequence sources, 
              text='The value each watched wire carries into every edge is computed independently of Waveform; getDict() must equal it sample for sample, and get_wavedrom() (both name modes) is decoded by an independent reader (dots, bit characters, hexadecimal data labels) and must reproduce the same sequences and span exactly the recorded cycles including the clock lane. Exploration (sampled).',
              note='Trusted: the value model and WaveDrom reader in pbt/props/c15.py.',
              ref='DESIGN.md 2/C15')
+CHECKS['C04'] = dict(tech='Hypothesis netlist generation with several instantiation orders per netlist, independent reference evaluator, fixpoint-idempotence and evaluation-order invariants, metamorphic order independence, cyclic / register-cut variants',
+             text='Generated netlists of stateless leaves (registers as cut points, hierarchy wrappers, late additions) are built in adversarial and random instantiation orders; every wire must equal the independent reference after simulator creation and after every clk, re-evaluating any leaf must change nothing, every leaf must be evaluated after its drivers, all orders must agree, cyclic variants (self-loop, 2-cycle, long cycle) must be refused and the same cycle cut by a register accepted; deep reverse-order chains stress the sorter. Exploration (sampled).',
+             note='Trusted: pbt/netgen.py (IR, builder, reference evaluator). Div/Mod and Latch are not generated.',
+             ref='DESIGN.md 2/C04')
 NOT_APPLICABLE = {}
 
 def main():
